@@ -135,6 +135,12 @@ def check_valid(pc, goal, want_model=True, all_backends=False, z3_timeout_ms=Non
                     continue
                 v = _run_cli(cmd, fix(text), CLI_TIMEOUT_S)
                 vv = {'unsat': 'proved', 'sat': 'refuted', 'unknown': 'unknown'}[v]
+                if vv == 'refuted' and quantified:
+                    # "sat" of a command-line solver on a quantified problem comes without a model that could be
+                    # checked or replayed (MBQI candidate models of recursive functions are unreliable in z3 4.8):
+                    # recorded, but neither a refutation nor a disagreement with a proof
+                    vv = 'unknown'
+                    verdicts[name + ' (unvalidated sat on a quantified problem)'] = 'unknown'
                 verdicts[name] = vv
                 if res['verdict'] == 'unknown' and vv == 'proved':
                     res['verdict'] = 'proved'
